@@ -7,6 +7,7 @@ import (
 	"errors"
 	"net/http"
 	"net/http/pprof"
+	"sync"
 	"time"
 
 	"github.com/prometheus/client_golang/prometheus/promhttp"
@@ -15,6 +16,9 @@ import (
 	"github.com/chihaya/chihaya/pkg/stop"
 )
 
+// shutdownTimeout is how long Stop waits for requests in flight.
+const shutdownTimeout = 5 * time.Second
+
 // Server represents a standalone HTTP server for serving a Prometheus metrics
 // endpoint.
 type Server struct {
@@ -22,13 +26,53 @@ type Server struct {
 
 	// done is closed when the serving goroutine has returned.
 	done chan struct{}
+
+	// active counts the requests being handled; idle is signalled when it
+	// drops to zero.
+	mu     sync.Mutex
+	active int
+	idle   *sync.Cond
+}
+
+// track counts the requests h is handling, so that Stop can wait for them.
+func (s *Server) track(h http.Handler) http.Handler {
+	return http.HandlerFunc(func(w http.ResponseWriter, r *http.Request) {
+		s.mu.Lock()
+		s.active++
+		s.mu.Unlock()
+		defer func() {
+			s.mu.Lock()
+			s.active--
+			if s.active == 0 {
+				s.idle.Broadcast()
+			}
+			s.mu.Unlock()
+		}()
+		h.ServeHTTP(w, r)
+	})
 }
 
 // Stop shuts down the server.
 func (s *Server) Stop() stop.Result {
 	c := make(stop.Channel)
 	go func() {
-		err := s.srv.Shutdown(context.Background())
+		// Shutdown waits for every connection to become idle, which is up to
+		// the clients: one that announces a request body and never sends it
+		// (or asks for an hour of profile) would keep Stop from ever
+		// completing. Past the deadline the remaining connections are closed.
+		ctx, cancel := context.WithTimeout(context.Background(), shutdownTimeout)
+		defer cancel()
+		err := s.srv.Shutdown(ctx)
+		if errors.Is(err, context.DeadlineExceeded) {
+			// Closing a connection cancels its request; wait for the
+			// handlers to notice.
+			err = s.srv.Close()
+			s.mu.Lock()
+			for s.active > 0 {
+				s.idle.Wait()
+			}
+			s.mu.Unlock()
+		}
 		// A serving goroutine that had not got to listen yet when Shutdown
 		// ran still binds the address before it notices: wait for it, so
 		// that the address is free when Stop completes.
@@ -54,11 +98,12 @@ func NewServer(addr string) *Server {
 	s := &Server{
 		srv: &http.Server{
 			Addr:              addr,
-			Handler:           mux,
 			ReadHeaderTimeout: time.Second * 60,
 		},
 		done: make(chan struct{}),
 	}
+	s.idle = sync.NewCond(&s.mu)
+	s.srv.Handler = s.track(mux)
 
 	go func() {
 		defer close(s.done)
